@@ -1,6 +1,6 @@
 // REPLAY for property C18, harness k_compressor_reset (unit K-reset, engine kani)
 // Failed obligations:
-//   OBL:reset.compressor_lazy_match_and_block_index_cleared [C18 C02]  at miniz_oxide/src/deflate/core.rs:3795:9 in function deflate::core::verif_deflate_core::k_compressor_reset
+//   OBL:reset.compressor_lazy_match_and_block_index_cleared [C18 C02]  at miniz_oxide/src/deflate/core.rs:3799:9 in function deflate::core::verif_deflate_core::k_compressor_reset
 // no-failing-input-found: the verifier reported the failed obligation without a concrete model.
 // Verifier output (tail):
 //   	 - Description: "memcpy src/dst overlap"
@@ -55,10 +55,10 @@
 //   SUMMARY:
 //    ** 1 of 1024 failed (8 unreachable)
 //   Failed Checks: "OBL:reset.compressor_lazy_match_and_block_index_cleared [C18 C02]"
-//    File: "miniz_oxide/src/deflate/core.rs", line 3795, in deflate::core::verif_deflate_core::k_compressor_reset
+//    File: "miniz_oxide/src/deflate/core.rs", line 3799, in deflate::core::verif_deflate_core::k_compressor_reset
 //   
 //   VERIFICATION:- FAILED
-//   Verification Time: 159.05693s
+//   Verification Time: 131.80397s
 //   
 //   Manual Harness Summary:
 //   Verification failed for - deflate::core::verif_deflate_core::k_compressor_reset
